@@ -64,6 +64,8 @@ def run(tier, seed):
                     v['confirmed'] = True
             if not chk.violations:
                 chk.violation('BOUNDED:c10/formatter output is not canonical', {'witness': nat['bad'][:4]}, True)
+    if chk.bounded and nat.get('corpus'):
+        chk.bounded['rule'] += '.  Plus %d runs over the hand-written corpus specs/luacorpus.py (shapes random generation reaches only by luck)' % nat['corpus']
     tri = trivianative.run(5 if big else 4, tuple(range(9)) if big else (0, 2, 3))
     if tri.get('timeout') or tri.get('error'):
         chk.undecide('BOUNDED:c10/trivia-run enumeration did not finish: %s' % (tri.get('error') or 'timeout'))
